@@ -28,11 +28,18 @@ import (
 )
 
 const (
-	verifDir = "/verif"
-	repoDir  = "/repo"
-	goRoot   = "/opt/veriftools/go1.26.8"
-	goBin    = goRoot + "/bin/go"
+	repoDir = "/repo"
+	goRoot  = "/opt/veriftools/go1.26.8"
+	goBin   = goRoot + "/bin/go"
 )
+
+// verifDir is /verif, or the snapshot directory when started through `vp run`.
+var verifDir = func() string {
+	if d := os.Getenv("VERIF_DIR"); d != "" {
+		return d
+	}
+	return "/verif"
+}()
 
 var buildDir = filepath.Join(verifDir, "build")
 
